@@ -66,10 +66,10 @@ def build(ctx, tag, nper, rng, int_chrom=False):
     return path, raw
 
 
-def frame_to_rows(obj, chromnames):
+def frame_to_rows(obj, chromnames, series_name=None):
     """canonical form of a selector result: (index labels, {column: values}) with chromosome names mapped to codes"""
-    if isinstance(obj, pd.Series):
-        obj = obj.to_frame(name=obj.name if obj.name is not None else "value")
+    if isinstance(obj, pd.Series):   # the name of a single-column result is not part of the claim (bins()['chrom'] on an integer-coded file has none)
+        obj = obj.to_frame(name=series_name or (obj.name if obj.name is not None else "value"))
     cols = {}
     for c in obj.columns:
         vals = obj[c].tolist()
@@ -124,7 +124,7 @@ def run_selectors(ctx, path, raw, label):
                         ctx.fail(case, {"error": repr(e)}, None)
                     continue
                 try:
-                    got = frame_to_rows(sel[a:b_], chromnames)
+                    got = frame_to_rows(sel[a:b_], chromnames, fs if isinstance(fs, str) else None)
                 except Exception as e:
                     ctx.fail(case, {"error": repr(e)}, None)
                     continue
@@ -142,7 +142,7 @@ def run_selectors(ctx, path, raw, label):
                 case = {"cooler": label, "table": tname, "fields": fs, "scalar": s}
                 ctx.case(case, kind=f"selector-scalar:{tname}")
                 try:
-                    got = frame_to_rows(sel[s], chromnames)
+                    got = frame_to_rows(sel[s], chromnames, fs if isinstance(fs, str) else None)
                     out = "ok"
                 except IndexError:
                     got, out = None, "IndexError"
@@ -156,7 +156,7 @@ def run_selectors(ctx, path, raw, label):
                     ctx.fail(case, {"outcome": out, "expected": "IndexError"}, None)
     # keyword variants of the table getters (oracle only): integer chromosome codes, dict output
     nb = len(raw["bins"]["start"])
-    for a, b_ in [(0, nb), (1, nb), (nb // 2, nb - 1 if nb > 1 else nb), (-2, None), (None, 1)]:
+    for a, b_ in [(0, nb), (min(1, nb), nb), (nb // 2, nb - 1 if nb > 1 else nb), (-min(2, nb), None), (None, 1)]:
         lo_, hi_, _ = slice(a, b_).indices(nb)
         if lo_ > hi_:
             continue
